@@ -388,4 +388,4 @@ func (t *termRun) drainableRemaining() []string {
 
 func hist(t *termRun) string { return strings.Join(t.history, ",") }
 
-var dbgHook func(t *termRun)
+var dbgHook func(t *termRun) = func(*termRun) {}
